@@ -185,6 +185,11 @@ fn name_probes(pattern: &str) -> Vec<String> {
     }
     v.push("a".to_string());
     v.push("é".to_string());
+    // one-character names on both sides of the letter ranges (bracket ranges with punctuation end
+    // points tell the cases apart; case folding of a range is the matcher's business)
+    for n in ["A", "Z", "z", "_", "0", "~", "É"] {
+        v.push(n.to_string());
+    }
     let mut changed: Vec<char> = inst.chars().collect();
     if let Some(c) = changed.first_mut() {
         *c = if *c == 'k' { 'j' } else { 'k' };
